@@ -29,49 +29,115 @@ func init() {
 }
 
 func ruleSig1(c *Ctx) {
+	isStop := func(f *ssa.Function) bool {
+		r := c.P.FnRef(f)
+		return r == "os/signal.Stop" || r == "os/signal.Reset" || r == "os/signal.Ignore"
+	}
+	reachesCleanup := c.P.NameIs("lib/query.(*Transaction).Rollback", "lib/query.(*Transaction).ReleaseResourcesWithErrors", "lib/query.(*Processor).ReleaseResourcesWithErrors", "lib/query.(*Processor).AutoRollback")
+	cleanupDefersOf := func(fn *ssa.Function) []ssa.Instruction {
+		var out []ssa.Instruction
+		for _, call := range core.Calls(fn) {
+			if _, isDefer := call.(*ssa.Defer); isDefer && c.P.CallReaches(call, reachesCleanup) {
+				out = append(out, call.(ssa.Instruction))
+			}
+		}
+		return out
+	}
+	// the owners of an installer: the function that calls signal.Notify when it
+	// registers the deferred clean-up itself; otherwise — the installation was
+	// moved into a helper — the functions that call the helper (statically, same
+	// package, followed for two levels) and register the clean-up. helperBad: a
+	// helper on the way switches the routing off when it returns.
+	type owner struct {
+		fn        *ssa.Function
+		helperBad string
+	}
+	var ownersOf func(fn *ssa.Function, depth int, bad string) []owner
+	ownersOf = func(fn *ssa.Function, depth int, bad string) []owner {
+		if len(cleanupDefersOf(fn)) > 0 {
+			return []owner{{fn, bad}}
+		}
+		if depth <= 0 || fn.Parent() != nil {
+			return nil
+		}
+		// a helper: its routing must survive its own return
+		for _, call := range core.Calls(fn) {
+			if _, isGo := call.(*ssa.Go); isGo {
+				continue
+			}
+			f := call.Common().StaticCallee()
+			_, isDefer := call.(*ssa.Defer)
+			if (isDefer && c.P.CallReaches(call, isStop)) || (f != nil && isStop(f)) {
+				bad = "signal routing is switched off at " + c.Pos(call.(ssa.Instruction)) + ", in or at the return of the helper " + c.P.Name(fn) + " that installs the handler, before the caller's deferred clean-up has run"
+			}
+		}
+		var out []owner
+		for _, e := range c.P.RealCallers(fn) {
+			caller := e.Caller.Func
+			if e.Site == nil || core.StaticCallee(e.Site) != fn || core.FnPkg(caller) != core.FnPkg(fn) {
+				return nil
+			}
+			if _, isGo := e.Site.(*ssa.Go); isGo {
+				return nil
+			}
+			up := ownersOf(caller, depth-1, bad)
+			if len(up) == 0 {
+				return nil
+			}
+			out = append(out, up...)
+		}
+		return out
+	}
 	n := 0
-	for _, fn := range c.P.FuncsIn(false, "lib/cli", "lib/action") {
-		if len(c.P.CallsNamed(fn, "os/signal.Notify")) == 0 {
+	seen := map[*ssa.Function]bool{}
+	for _, inst := range c.P.FuncsIn(false, "lib/cli", "lib/action") {
+		if len(c.P.CallsNamed(inst, "os/signal.Notify")) == 0 {
 			continue
 		}
 		n++
-		c.Touch(fn)
-		key := c.KeyAt(fn, "signal routing outlives the clean-up")
-		isStop := func(f *ssa.Function) bool {
-			r := c.P.FnRef(f)
-			return r == "os/signal.Stop" || r == "os/signal.Reset" || r == "os/signal.Ignore"
-		}
-		reachesCleanup := c.P.NameIs("lib/query.(*Transaction).Rollback", "lib/query.(*Transaction).ReleaseResourcesWithErrors", "lib/query.(*Processor).ReleaseResourcesWithErrors", "lib/query.(*Processor).AutoRollback")
-		var cleanupDefers, stopDefers []ssa.Instruction
-		bad := ""
-		for _, call := range core.Calls(fn) {
-			in := call.(ssa.Instruction)
-			_, isDefer := call.(*ssa.Defer)
-			if c.P.CallReaches(call, isStop) {
-				if isDefer {
-					stopDefers = append(stopDefers, in)
-				} else if f := call.Common().StaticCallee(); f != nil && isStop(f) {
-					bad = "signal routing is switched off by a direct call at " + c.Pos(in)
-				}
-			}
-			if isDefer && c.P.CallReaches(call, reachesCleanup) {
-				cleanupDefers = append(cleanupDefers, in)
-			}
-		}
-		if len(cleanupDefers) == 0 {
-			c.Unknown(key, c.FnPos(fn), "cannot-analyse: no deferred rollback / release in the function that installs the signal handler (R-TXN-2 decides where it must be)")
+		c.Touch(inst)
+		owners := ownersOf(inst, 2, "")
+		if len(owners) == 0 {
+			c.Unknown(c.KeyAt(inst, "signal routing outlives the clean-up"), c.FnPos(inst), "cannot-analyse: no deferred rollback / release in the function that installs the signal handler, nor in the functions that call it as their helper (R-TXN-2 decides where it must be)")
 			continue
 		}
-		for _, s := range stopDefers {
-			for _, cl := range cleanupDefers {
-				// deferred calls run in reverse order: the stop must be registered first
-				if !core.Dominates(s, cl) {
-					bad = fmt.Sprintf("the deferred signal.Stop/Reset registered at %s runs before the deferred rollback/release registered at %s", c.Pos(s), c.Pos(cl))
+		for _, ow := range owners {
+			fn := ow.fn
+			if seen[fn] {
+				continue
+			}
+			seen[fn] = true
+			c.Touch(fn)
+			key := c.KeyAt(fn, "signal routing outlives the clean-up")
+			var stopDefers []ssa.Instruction
+			cleanupDefers := cleanupDefersOf(fn)
+			bad := ow.helperBad
+			for _, call := range core.Calls(fn) {
+				in := call.(ssa.Instruction)
+				_, isDefer := call.(*ssa.Defer)
+				if c.P.CallReaches(call, isStop) {
+					if isDefer {
+						stopDefers = append(stopDefers, in)
+					} else if f := call.Common().StaticCallee(); f != nil && isStop(f) {
+						bad = "signal routing is switched off by a direct call at " + c.Pos(in)
+					}
 				}
 			}
+			for _, s := range stopDefers {
+				for _, cl := range cleanupDefers {
+					// deferred calls run in reverse order: the stop must be registered first
+					if !core.Dominates(s, cl) {
+						bad = fmt.Sprintf("the deferred signal.Stop/Reset registered at %s runs before the deferred rollback/release registered at %s", c.Pos(s), c.Pos(cl))
+					}
+				}
+			}
+			okWhy := "signals are delivered to the cancel function until the deferred clean-up has finished"
+			if fn != inst {
+				okWhy += " (the handler is installed by its helper " + c.P.Name(inst) + ", which never switches the routing off)"
+			}
+			c.Check(bad == "", key, c.FnPos(fn), okWhy,
+				bad+": a second SIGINT/SIGTERM arriving during the clean-up gets the default disposition and kills csvq, leaving .lock / .temp files behind")
 		}
-		c.Check(bad == "", key, c.FnPos(fn), "signals are delivered to the cancel function until the deferred clean-up has finished",
-			bad+": a second SIGINT/SIGTERM arriving during the clean-up gets the default disposition and kills csvq, leaving .lock / .temp files behind")
 	}
 	if n == 0 {
 		c.Unknown("signal.Notify", "-", "cannot-analyse: no function of lib/cli / lib/action installs a signal handler")
